@@ -544,8 +544,9 @@ int build(const Doc &d, cif_tp **out) {
 }
 
 const char *code_name(int rc) {
-    switch (rc) {
-#define X(n) case n: return #n;
+    // (an if-chain, not a switch: a header in which two codes collide must still compile, so that C20 can report it)
+    {
+#define X(n) if (rc == n) return #n;
     X(CIF_OK) X(CIF_FINISHED) X(CIF_ERROR) X(CIF_MEMORY_ERROR) X(CIF_INVALID_HANDLE) X(CIF_INTERNAL_ERROR) X(CIF_ARGUMENT_ERROR)
     X(CIF_MISUSE) X(CIF_NOT_SUPPORTED) X(CIF_ENVIRONMENT_ERROR) X(CIF_CLIENT_ERROR) X(CIF_DUP_BLOCKCODE) X(CIF_INVALID_BLOCKCODE)
     X(CIF_NOSUCH_BLOCK) X(CIF_DUP_FRAMECODE) X(CIF_INVALID_FRAMECODE) X(CIF_NOSUCH_FRAME) X(CIF_CAT_NOT_UNIQUE) X(CIF_INVALID_CATEGORY)
